@@ -956,13 +956,17 @@ fn parents(
 ) -> Vec<anyhow::Result<SignedEntry>> {
     let mut res = Vec::new();
 
-    while !key.is_empty() {
-        let entry = get_exact(table, namespace, author, &key, false);
-        key.pop();
+    // Look at every prefix of the key, including the key itself and the empty key, and include
+    // deletion markers: a newer marker at a prefix supersedes the entry just like a record does.
+    loop {
+        let entry = get_exact(table, namespace, author, &key, true);
         match entry {
             Err(err) => res.push(Err(err)),
             Ok(Some(entry)) => res.push(Ok(entry)),
-            Ok(None) => continue,
+            Ok(None) => {}
+        }
+        if key.pop().is_none() {
+            break;
         }
     }
     res.reverse();
